@@ -839,3 +839,26 @@ package scipipe
 //@   loop 0 invariant seen: forall k string :: $visited[k] ==> sawReady[procs[k]]
 //@   loop 0 invariant vis: forall k string :: $visited[k] ==> k in procs
 //@   loop 0 invariant grows: forall p ref :: old(sawReady)[p] ==> sawReady[p]
+
+//@ func mergeWFMaps(a, b) (res)
+//@   props C16
+//@   modifies a[*]
+//@   ensures same-map: res == a
+//@   ensures union: forall k string :: k in a <==> (old(k in a) || k in b)
+//@   ensures values: forall k string :: k in a ==> (k in b && a[k] == b[k]) || (!(k in b) && a[k] == old(a[k]))
+//@   loop 0 invariant vis: forall k string :: $visited[k] ==> k in b
+//@   loop 0 invariant union: forall k string :: k in a <==> (old(k in a) || $visited[k])
+//@   loop 0 invariant values: forall k string :: k in a ==> ($visited[k] && a[k] == b[k]) || (!$visited[k] && a[k] == old(a[k]))
+
+// q is a direct upstream of p: some in-port or parameter in-port of p has a remote (out-)port owned by q
+//@ define directUp(q ref, p ref) bool = (exists i string, r string :: i in inPortsOf(p) && r in inPortsOf(p)[i].RemotePorts && inPortsOf(p)[i].RemotePorts[r].process == q) || (exists i string, r string :: i in inParamPortsOf(p) && r in inParamPortsOf(p)[i].RemotePorts && inParamPortsOf(p)[i].RemotePorts[r].process == q)
+//@ define listed(m map[string]WorkflowProcess, q ref) bool = procName(q) in m && m[procName(q)] == q
+
+//@ func upstreamProcsForProc(proc) (procs)
+//@   props C16
+//@   modifies new(map[string]WorkflowProcess)
+//@   ensures fresh: fresh(procs) && procs != nil
+//@   ensures keyed-by-name: forall k string :: k in procs ==> procs[k] != nil && procName(procs[k]) == k
+//@   ensures direct-upstream-listed: forall q ref :: directUp(q, proc) ==> listed(procs, q)
+//@   ensures closed-under-upstream: forall k string, q ref :: k in procs && directUp(q, procs[k]) ==> listed(procs, q)
+//@   ensures only-upstream: forall k string :: k in procs ==> directUp(procs[k], proc) || (exists k2 string :: k2 in procs && directUp(procs[k], procs[k2]))
